@@ -27,12 +27,26 @@ Section CtlProofs.
     rewrite andb_true_iff, !negb_true_iff, !N.eqb_neq. tauto.
   Qed.
 
+  Lemma falls_off_b_spec blk : falls_off_b blk = true <-> falls_off blk.
+  Proof.
+    unfold falls_off_b, falls_off. destruct (b_succs blk) as [|s0 ss] eqn:Hsucc.
+    - split; [intros _; left; reflexivity | reflexivity].
+    - rewrite existsb_exists. split.
+      + intros [s [Hs H]]. right.
+        destruct s as [m names t dims|m c t [f|]|m e|m v op rhe sv sty|m l r|m args|m e]; try discriminate.
+        exists m, c, t. split; [assumption|]. intros x Hx. rewrite Hx in H. discriminate.
+      + intros [H|(m & c & t & Hs & H)]; [discriminate|]. exists (SIf m c t None). split; [assumption|].
+        destruct (filter (fun y => negb (N.eqb y t)) (s0 :: ss)) as [|x [|x' r]] eqn:Hf; try reflexivity.
+        exfalso. exact (H x eq_refl).
+  Qed.
+
   Lemma is_exit_b_spec e : is_exit_b g e = true <-> is_exit g e.
   Proof.
     unfold is_exit_b, is_exit. rewrite existsb_exists. split.
     - intros [blk [Hblk H]]. apply andb_true_iff in H. destruct H as [He Hs]. apply N.eqb_eq in He.
-      exists blk. repeat split; try assumption. destruct (b_succs blk); [reflexivity | discriminate].
-    - intros [blk [Hblk [<- Hs]]]. exists blk. split; [assumption|]. rewrite N.eqb_refl, Hs. reflexivity.
+      exists blk. repeat split; try assumption. apply falls_off_b_spec. assumption.
+    - intros [blk [Hblk [<- Hs]]]. exists blk. split; [assumption|]. rewrite N.eqb_refl.
+      apply falls_off_b_spec in Hs. rewrite Hs. reflexivity.
   Qed.
 
   Lemma reach_avoiding y a r :
